@@ -2,7 +2,7 @@
 import copy, math, pickle
 import numpy as np
 from vlib import quiet
-from harness.common import VOID, AXES, mk_ub
+from harness.common import rot_from_rotvec, VOID, AXES, mk_ub
 from harness import pipeline as PL, solver as S
 
 SPEC = {
@@ -41,7 +41,7 @@ def fresh_copy(hc):
 
 def gen_query(rng, good):
     from diffcalc.hkl.geometry import Position
-    k = rng.choices(["gp-good", "gp-zero", "gp-far", "gp-other", "gp-along", "hkl", "va", "edit-pos", "str"], weights=[30, 8, 8, 14, 10, 12, 12, 10, 6])[0]
+    k = rng.choices(["gp-good", "gp-zero", "gp-far", "gp-other", "gp-along", "hkl", "va", "edit-pos", "str", "mutate"], weights=[30, 8, 8, 14, 10, 12, 12, 10, 6, 9])[0]
     return k
 
 
@@ -76,6 +76,31 @@ def run_history(ctx, tr, length):
     n = 0
     for step in range(length):
         k = gen_query(rng, hkl)
+        if k == "mutate":
+            # a legitimate change of state through the public setters between queries: from here on the calculator must answer like a
+            # freshly built one in the NEW state (nothing remembered from the queries made before the change)
+            with quiet():
+                m = rng.choice(["same-coords-other-frame", "new-vector", "set_u", "constraint", "surface-other-frame"])
+                try:
+                    if m == "same-coords-other-frame":
+                        v = tuple(float(x) for x in ub2.reference.n_ref)
+                        setattr(ub2, "n_phi" if ub2.reference.rlv else "n_hkl", v)
+                    elif m == "surface-other-frame":
+                        v = tuple(float(x) for x in ub2.surface.n_ref)
+                        setattr(ub2, "surf_nphi" if ub2.surface.rlv else "surf_nhkl", v)
+                    elif m == "new-vector":
+                        setattr(ub2, rng.choice(["n_hkl", "n_phi", "surf_nhkl", "surf_nphi"]), tuple(rng.uniform(-1, 1) for _ in range(3)))
+                    elif m == "set_u":
+                        ub2.set_u(rot_from_rotvec([rng.uniform(-0.4, 0.4) for _ in range(3)]) @ np.asarray(ub2.U))
+                    else:
+                        nm = [n for n in vals if n not in VOID]
+                        if nm:
+                            setattr(hc.constraints, nm[0], getattr(hc.constraints, nm[0]) + 1.5)
+                except Exception:  # noqa
+                    pass
+            first_answers.clear()
+            kinds.add(("mutate", m))
+            continue
         before = snapshot(hc)
         key, thunk = None, None
         if k == "gp-good":
